@@ -251,7 +251,7 @@ def h_call(eng, target, nargs, kinds, conv_kind, adj_kind):
             shq = eng.int("shadow_words", 0, 64)
             shadow = shq * ptr
         conv = CallingConventionDesc(registers=tuple(regs), stack_alignment=align,
-                                     caller_cleanup=eng.choose("caller_cleanup", [True, False]) if x86 else True,
+                                     caller_cleanup=eng.choose("caller_cleanup", [True, False]),
                                      shadow_space=shadow)
     # ---- arguments -------------------------------------------------------------------------
     seen_ctx = []
@@ -278,7 +278,14 @@ def h_call(eng, target, nargs, kinds, conv_kind, adj_kind):
         else:
             values.append(("sym", "obj"))
             args.append(datasym)
-    patch = CallPatch(callee, args, conv)
+    try:
+        patch = CallPatch(callee, args, conv)
+    except ValueError:
+        # a convention the target cannot honour is refused when the patch is built (ARM64: shadow space, alignment other
+        # than 16, callee cleanup) - a loud refusal, never code that leaves the stack pointer displaced
+        eng.check(target == "arm64" and conv is not None and not conv.caller_cleanup,
+                  "CallPatch refused a calling convention description the target supports")
+        return
     cconv = conv or patch._imp._cconv if hasattr(patch._imp, "_cconv") else conv
     cconv = patch._imp._cconv
     if adj_kind == "none":
@@ -355,6 +362,8 @@ def h_call(eng, target, nargs, kinds, conv_kind, adj_kind):
                     sp_call = sp
                     regs_at_call = dict(regs)
                     mem_at_call = list(mem)
+                    if not cconv.caller_cleanup:
+                        sp = sp + 8 * len(stack_values)  # the callee pops its stack arguments
     except Reject as rj:
         eng.fail("emitted assembly is not valid: %s" % rj, finding=_finding(target, values, str(rj)), asm=asm)
     eng.check(called, "no call instruction emitted")
